@@ -480,8 +480,11 @@ class NetworkService(ModelElement):
         """
         assert(isinstance(ns, NetworkService))
         # see if they peer
-        sp = self.topo.graph_model.get_nodes_on_shortest_path(node_a=self.node_id, node_z=ns.node_id)
-        # two peered services are exactly one link apart: service - port - link - port - service
+        # two peered services are exactly one link apart: service - port - link - port - service.
+        # Follow 'connects' only: two services of one node are as close over their 'has' edges, and so
+        # are the services of two components of one node (service - component - node - component - service)
+        sp = self.topo.graph_model.get_nodes_on_shortest_path(node_a=self.node_id, node_z=ns.node_id,
+                                                              rel=ABCPropertyGraph.REL_CONNECTS)
         if len(sp) != 5:
             raise TopologyException(f"Network services {self.name} and {ns.name} do not peer!")
         # remove ConnectionPoints and link between them
